@@ -3,6 +3,8 @@
 EXTENDS Containers
 
 CONSTANTS Depth,        \* maximal number of calls in a behaviour
+          LeafReadOnly, \* TRUE: a call that left the container (content, lazy flags, row counts) untouched
+                        \* is not continued - its futures are those of its predecessor (quick tier)
           BlockLits, CatLits, ColLits, FileLits,   \* literal ids used as arguments
           BKeys, CKeys, KKeys                       \* keys tried at the three levels
 
@@ -10,8 +12,9 @@ VARIABLES fl,      \* "text" | "binary", fixed in Init
           f,       \* the lazy container
           oc, out, \* outcome and returned value of the last call
           kb,      \* recorded-defect predicates that hold for the last call
-          agree    \* the last call, abstracted, is the Ideal call
-vars == <<fl, f, oc, out, kb, agree>>
+          agree,   \* the last call, abstracted, is the Ideal call
+          same     \* the last call did not change f at all
+vars == <<fl, f, oc, out, kb, agree, same>>
 
 AllCalls ==
        {<<"FSet", <<b, l>>>> : b \in BKeys, l \in BlockLits}
@@ -31,11 +34,13 @@ AllCalls ==
 Call(c) ==
   LET r == Apply(fl, f, c[1], c[2])
       i == IdealApply(fl, AbsFile(f), c[1], c[2])
-  IN /\ f' = r.f /\ oc' = r.oc /\ out' = r.out /\ kb' = r.kb
+  IN /\ ~(LeafReadOnly /\ same)
+     /\ f' = r.f /\ oc' = r.oc /\ out' = r.out /\ kb' = r.kb
      /\ agree' = (AbsFile(r.f) = i.f /\ r.oc = i.oc /\ r.out = i.out)
+     /\ same' = (r.f = f)
      /\ UNCHANGED fl
 
-Init == fl \in {"text", "binary"} /\ f = <<>> /\ oc = "ok" /\ out = <<>> /\ kb = {} /\ agree = TRUE
+Init == fl \in {"text", "binary"} /\ f = <<>> /\ oc = "ok" /\ out = <<>> /\ kb = {} /\ agree = TRUE /\ same = FALSE
 Next == \E c \in AllCalls : Call(c)
 Spec == Init /\ [][Next]_vars
 DepthBound == TLCGet("level") <= Depth
@@ -63,8 +68,10 @@ InvStaleCharacterised ==
   /\ (IdealSerializable(AbsFile(f)) /\ ~ImplSerializable(fl, f)) => HasStaleCat(f)
 \* a refused call changes nothing that can be observed
 RefusalIsNoOp == [][oc' # "ok" => AbsFile(f') = AbsFile(f)]_vars
-\* key prefixing of BinaryCIFBlock: the intended inverse is exact, the coded one (lstrip) is not
+\* key prefixing of BinaryCIFBlock: the intended inverse is exact; the coded one is exact too since
+\* a259ccb0 (removeprefix), the former one (lstrip) was not
 ASSUME \A key \in {<<"c">>, <<"us", "c">>, <<"us", "us">>, <<"c", "us">>} :
           /\ BcifShownKeyIntended(BcifStoredKey(key)) = key
           /\ (BcifShownKeyImpl(BcifStoredKey(key)) # key) = KB_BcifLstripKey(key)
+          /\ (BcifShownKeyLstrip(BcifStoredKey(key)) # key) = (key[1] = "us")     \* the repaired defect
 =============================================================================
